@@ -337,6 +337,50 @@ func VH_C03_sibling_hooks() {
 	zzverif.Reach("C03/sibling-hooks")
 }
 
+// The hooks of a logger are the ones handed to Hook() at the time of the call: the variadic
+// argument may be the caller's own slice (Hook(hs...)), which the caller is free to overwrite,
+// extend or hand to another logger afterwards (round 9, C03-9).
+func VH_C03_caller_slice() {
+	vHookLog = nil
+	w := &vWriter{}
+	p := New(w)
+	n := zzverif.Choice(3)
+	var want []int
+	for i := 0; i < n; i++ {
+		p = p.Hook(vActHook{id: i})
+		want = append(want, i)
+	}
+	hs := make([]Hook, 2, 4)
+	hs[0], hs[1] = vActHook{id: 5}, vActHook{id: 6}
+	k := 1 + zzverif.Choice(2)
+	a := p.Hook(hs[:k]...)
+	want = append(want, 5)
+	if k == 2 {
+		want = append(want, 6)
+	}
+	l := a
+	switch zzverif.Choice(4) {
+	case 0:
+		hs[0] = vActHook{id: 8} // caller reuses its slice
+	case 1:
+		_ = append(hs[:k], vActHook{id: 9}) // caller appends into its own spare capacity
+	case 2:
+		b := New(w).Hook(hs[:k]...) // same slice handed to an unrelated logger, which is then extended
+		_ = b.Hook(vActHook{id: 9})
+		hs[k-1] = vActHook{id: 8}
+	case 3:
+		l = a.Hook(vActHook{id: 7}) // a child must not grow into the caller's slice either
+		want = append(want, 7)
+		zzverif.Assert(hs[:4][2] == nil && hs[1].(vActHook).id == 6, "caller slice: deriving a child never writes into the slice the caller passed to Hook")
+	}
+	l.Info().Msg("m")
+	zzverif.Assert(len(vHookLog) == len(want), "caller slice: exactly the hooks passed at Hook() time run")
+	for i := range want {
+		zzverif.Assert(vHookLog[i].id == want[i], "caller slice: a logger's hooks are fixed when Hook() returns; later writes to the caller's slice do not reach it")
+	}
+	zzverif.Reach("C03/caller-slice")
+}
+
 // Hooks run for every enabled event whatever the destination is: a logger that writes to
 // io.Discard (New(nil), Output(io.Discard)) is the usual way to forward events through hooks only.
 func VH_C03_discard_writer() {
